@@ -47,7 +47,7 @@ def run(rep, tier):
     if len(fo.returns) != 1 or not isinstance(fo.returns[0][0], Matrix):
         raise AnalysisBroken("FillTholeInteraction does not fold to one 3x3 return")
     R0 = fo.returns[0][0]
-    env = fo.final_env
+    env = fo.exit_env()
     byname = {d["name"]: env.get(k) for k, d in f.decls.items() if k in env}
     l3, l5, a = byname.get("lambda3"), byname.get("lambda5"), byname.get("a")
     diag = [e for e in fo.events if e["kind"] == "store" and nows(e["target"]) == "result.diagonal().array()"]
